@@ -288,9 +288,20 @@ func typedUnits(which string) []engine.Unit {
 		}
 		laws(r, uni[any]{name: "any holding unsigned integers of different widths", vals: []any{uint8(0), uint8(1), uint8(44), uint8(255), uint16(1), uint16(255), uint16(256), uint16(300), uint32(511), uint(512), uint64(1), uint64(300), uint64(math.MaxUint64)}}, which)
 		laws(r, uni[any]{name: "any holding signed integers of different widths", vals: []any{int8(-128), int8(-1), int8(1), int16(-129), int16(-1), int16(300), int(-1), int(5), int64(-1), int64(5), int64(math.MinInt64), int64(math.MaxInt64)}}, which)
+		// sequences whose leading items are the same number in different widths: the order is decided further on
+		// (or by the lengths), whatever the verdict on the leading pair is
+		L := func(items ...any) any { return col.List[any](common.N()).MakeFromArray(items) }
+		laws(r, uni[any]{name: "any holding sequences that start with integers of different widths", vals: []any{
+			[]any{int(1), 5}, []any{int64(1), 4}, []any{int(1), 3}, []any{int(1)}, []any{int8(1), 2}, []any{int64(1)}, []any{int16(1), 9, 9}, []any{int(2)}, []any{int8(0), 7},
+			[]any{int(1), int64(5)}, []any{int64(1), int(5)}, []any{int64(1), int(6)}}}, which)
+		laws(r, uni[any]{name: "any holding Lists that start with integers of different widths", vals: []any{
+			L(int(1), 5), L(int64(1), 4), L(int(1), 3), L(int(1)), L(int8(1), 2), L(int64(1)), L(int(2)), L(int8(0), 7)}}, which)
 	})
 	add("string", func(r *engine.Rec) {
 		laws(r, uni[string]{name: "string", vals: []string{"", "a", "ab", "b", "a\x00", "\xff", "é", "A"}, ref: ord[string]}, which)
+		// byte-wise order is defined for every string, well-formed UTF-8 or not: bytes that decode to the same
+		// replacement character are still different bytes
+		laws(r, uni[string]{name: "string with ill-formed UTF-8", vals: []string{"\x80", "\xc0", "\xfe", "\xff", "\ufffd", "é", "\U0010ffff", "a\xfeb", "a\xffb", "a\ufffdb", "\xc3", "\xc3\xa9", "\xed\xa0\x80", "z"}, ref: ord[string]}, which)
 	})
 	add("slices", func(r *engine.Rec) {
 		var vs [][]int
